@@ -29,3 +29,4 @@ def run(ctx: Ctx) -> None:
     ctx.do(C.rule_enum_strat)
     ctx.do(C.rule_enum_compute)
     ctx.do(RO.rule_roles)
+    ctx.do(TR.rule_alias_grad)
